@@ -31,10 +31,16 @@ def budget(tier):
     return {"cases": 1600, "seconds": 55} if tier == "quick" else {"cases": 24000, "seconds": 600}
 
 
-def _seal(root, tree_src, seq, root_arg=None, cwd=None, lseed=None):
-    """copy the media tree to `root`, run the command sequence; returns (exit codes, {rel: bytes} of all ascmhl files)"""
+def _seal(root, tree_src, seq, root_arg=None, cwd=None, lseed=None, keep_links=False):
+    """copy the media tree to `root`, run the command sequence; returns (exit codes, {rel: bytes} of all ascmhl files).
+    keep_links: two names of one file (hard links) stay that in the copy; otherwise every name gets its own file."""
     os.makedirs(os.path.dirname(root), exist_ok=True)
-    shutil.copytree(tree_src, root)
+    if keep_links:
+        import subprocess
+
+        subprocess.run(["cp", "-a", tree_src, root], check=True)
+    else:
+        shutil.copytree(tree_src, root)
     exits = []
     res = None
     for sub, argv_tail in seq:
@@ -104,6 +110,19 @@ def run_case(cs):
     src = os.path.join(d, "src", "root")
     world.write_tree(src, tree)
     os.makedirs(src, exist_ok=True)
+    hard_links = False
+    if rng.random() < 0.12:
+        # a second name for one of the files (de-duplicated copies): the baseline keeps it as a hard link, the other
+        # locations hold plain copies - the same names, contents and modification times
+        fl = sorted(k for k, v in tree.items() if v is not None)
+        if fl:
+            srcf = rng.choice(fl)
+            dst = os.path.join(os.path.dirname(srcf), "zz-second-name-" + os.path.basename(srcf)[:20])
+            if dst not in tree:
+                os.link(os.path.join(src, srcf), os.path.join(src, dst))
+                tree[dst] = tree[srcf]
+                hard_links = True
+                cs.count("trees_with_hard_links_at_the_baseline_only")
     fm = world.gen_formats(rng)
     seq = [(k, ["-h", "md5"]) for k in kids]
     tail = world.fmt_args(fm) + [x for p in pats for x in ("-i", p)]
@@ -111,7 +130,7 @@ def run_case(cs):
     if rng.random() < 0.4:
         seq.append((".", world.fmt_args(world.gen_formats(rng))))
     base_root = os.path.join(d, "vf-base", "root")
-    bex, bfiles, bres = _seal(base_root, src, seq)
+    bex, bfiles, bres = _seal(base_root, src, seq, keep_links=hard_links)
     if bres.internal or any(e != 0 for e in bex):
         cs.evaluated()
         cs.violation(classify.internal_key(bres) if bres.internal else "baseline-create-nonzero", {"kind": "baseline-failed", "exits": bex, "exc": bres.exc_class}, bres.brief())
